@@ -315,9 +315,9 @@ func genC06(seed uint64, tier string, outdir string) *Report {
 				c.Do(sc.Deposit(B, uint64(q), e.User(5).Str, 0, big.NewInt(int64(10+q)), Hook{Kind: "none"}))
 			}
 			c.Do(sc.Deposit(A, uint64(k+1), e.User(4).Str, 0, big.NewInt(5), Hook{Kind: "none"}))
-			c.Do(L2Op{Kind: "setinfo", Sender: A, Info: info})                                                    // repeated registration
+			c.Do(L2Op{Kind: "setinfo", Sender: A, Info: info})                                               // repeated registration
 			c.Do(L2Op{Kind: "setinfo", Sender: A, Info: c06BInfo(e, sc.BridgeID+1, A, "l1chain", "", true)}) // incompatible: refused
-			c.Do(sc.Deposit(A, uint64(k+1), e.User(4).Str, 0, big.NewInt(5), Hook{Kind: "none"}))             // no-op
+			c.Do(sc.Deposit(A, uint64(k+1), e.User(4).Str, 0, big.NewInt(5), Hook{Kind: "none"}))            // no-op
 			c.Do(sc.Deposit(B, uint64(k+2), e.User(4).Str, 0, big.NewInt(6), Hook{Kind: "none"}))
 			nv := len(rep.Violations)
 			c06Check(rep, c, 1)
